@@ -117,6 +117,22 @@ C13_FNS = ["rumqttd::segments::CommitLog::{new, append, apply_retention, readv, 
 PROPS["C13"] = {
     "title": "Commit log reads return exactly the retained suffix; retention is bounded",
     "families": [
+        {"name": "append_step", "filters": ["c13::step::append_"], "tier": "quick", "timeout": 600, "jobs": 6, "mem_gb": 16,
+         "min_harnesses": 13,
+         "kind": "I (one append from an INV pre-state built with the real Segment::with_offset + push)",
+         "bounds": "pre-state layout concrete per instance (1-3 segments, 1-2 entries each, max_mem_segments 1-3, head/base offsets "
+                   "non-zero); sizes of retired segments' entries symbolic under INV, sizes of the ACTIVE segment's entries concrete "
+                   "per instance at every boundary of 'full' (total 0, 1023, 1024, 1025, 2048, 512+512, 512+511, 1000+23, 1000+24, "
+                   "65535) so that rotation is a concrete branch; appended size symbolic u16",
+         "asserts": "append returns the log tail; rotates iff the active segment was full (>= max_segment_size) when the append "
+                    "arrived; evicts exactly the whole oldest segment iff the segment limit is reached, nothing else changes; never "
+                    "more than max_mem_segments; absolute offsets contiguous; next_offset() == tail",
+         "encodes": C13_FNS, "stubs": [TRACING_STUB, BYTES_MODEL,
+                    "Vec::with_capacity(1024) -> capacity 4, Vec::reserve on a non-empty Vec -> assertion that no growth is needed, "
+                    "VecDeque::grow -> assertion (the ring never exceeds max_mem_segments)"],
+         "assumes": ["INV (harness/kani/src/c13/mod.rs) on the pre-state; the layout post-condition re-establishes it"],
+         "outside": ["more than 3 retained segments / 2 entries per segment in a pre-state", "reading the appended entry back in the "
+                     "same harness (the combination runs out of memory; reads are decided by read_step)"]},
         {"name": "read_step", "filters": ["c13::step::read_"],
          "filters_quick": ["c13::step::read_fresh", "c13::step::read_s2_stale", "c13::step::read_s21_0", "c13::step::read_s21_1",
                            "c13::step::read_s12_0", "c13::step::read_s212_1"], "min_harnesses_quick": 6, "tier": "quick", "timeout": 900, "jobs": 3, "mem_gb": 18,
